@@ -5,11 +5,14 @@
 //
 //	(i)   @page cascade: every sequence of <= 3 (thorough 4) distinct rules of a 13 rule menu
 //	      (after a fixed base rule) x 10 documents of 1-5 forced pages with named pages;
-//	(ib)  page box dimensions: width/height x auto/length/percentage margins x padding x
-//	      min/max constraints;
+//	(ib)  page box dimensions: width/height x auto/length/percentage margins x padding and
+//	      border on each side separately (so that the two sides of an axis differ) x min/max
+//	      constraints;
 //	(ii)  break placement: flow shapes x page content height 10..70 step 5 x every set of
 //	      <= 2 (thorough: 3 on the small shapes) deviations of the per-box menu
-//	      break-before/after, break-inside, orphans, widows, padding, border, page, counter-reset;
+//	      break-before/after, break-inside, orphans, widows, padding, border, page, counter-reset,
+//	      and of the page-level menu (border/padding of the PAGE box, one-sided / mixed /
+//	      all different / symmetric);
 //	(iii) counter(page)/counter(pages) in a margin box on every case of (ii), in each of the 16
 //	      margin boxes, and with page-context resets/increments.
 package c12
@@ -135,7 +138,7 @@ func (c *check) Init(tier string, seed int64) engine.Space {
 	}
 	var nFlow int64
 	for si, sp := range c.shapes {
-		m := int64(len(choicesFor(parseShape(sp), thorough)))
+		m := int64(len(menuFor(parseShape(sp), thorough, 1)))
 		for hi := range c.heights {
 			c.units = append(c.units, unit{fam: famFlow, shape: si, h: hi, level: 1})
 			nFlow += 1 + m
@@ -153,7 +156,7 @@ func (c *check) Init(tier string, seed int64) engine.Space {
 		l2 = shapesL1
 	}
 	for _, sp := range l2 {
-		ch := choicesFor(parseShape(sp), thorough)
+		ch := menuFor(parseShape(sp), thorough, 2)
 		for hi := range c.heights {
 			for i := range ch {
 				c.units = append(c.units, unit{fam: famFlow, shape: idx[sp], h: hi, level: 2, i: i})
@@ -163,7 +166,7 @@ func (c *check) Init(tier string, seed int64) engine.Space {
 	}
 	if thorough {
 		for _, sp := range shapesThoroughL3 {
-			ch := choicesFor(parseShape(sp), thorough)
+			ch := menuFor(parseShape(sp), thorough, 3)
 			for hi := range c.heights {
 				for i := range ch {
 					c.units = append(c.units, unit{fam: famFlow, shape: idx[sp], h: hi, level: 3, i: i})
@@ -175,13 +178,14 @@ func (c *check) Init(tier string, seed int64) engine.Space {
 	chunk := int64(4)
 	return engine.Space{
 		Units: int64(len(c.units)), Chunk: chunk, Level: "model_checking", CaseCPUs: 5,
-		Rule: "deviation-bounded product, simplest first: (i) every sequence of distinct @page rules up to the bound x every forced-page document; (ib) the product of page box width/height/margin/padding/min/max choices; (iii) every margin box name and page-context counter manipulation; (ii) per flow shape and page content height: the default flow, then every single deviation of the per-box menu, then every pair (then triples) of deviations in distinct slots. One case = one document laid out by layout.Layout and compared with the reference. A case is non-trivial when the reference pagination has >= 2 pages (flows) or the rule sequence/choice changes the geometry of at least one page (cascade, page box)",
+		Rule: "deviation-bounded product, simplest first: (i) every sequence of distinct @page rules up to the bound x every forced-page document; (ib) the product of page box width/height/margin/padding (each side)/border (each side)/min/max choices; (iii) every margin box name and page-context counter manipulation; (ii) per flow shape and page content height: the default flow, then every single deviation of the per-box menu and of the page-level menu (border/padding of the page box on one side, on opposite sides, all different, symmetric; the sheet grows so that the content box is unchanged), then every pair (then triples) of deviations in distinct slots. One case = one document laid out by layout.Layout and compared with the reference. A case is non-trivial when the reference pagination has >= 2 pages (flows) or the rule sequence/choice changes the geometry of at least one page (cascade, page box)",
 		Bounds: map[string]any{
 			"cascade_rule_menu": ruleTexts(), "cascade_max_rules": maxLen, "cascade_docs": cascadeDocs, "cascade_cases": nCascade,
 			"pagebox_cases": c.pbCases, "counter_cases": c.cntCases,
 			"flow_shapes_level1": c.shapes, "flow_shapes_level2": l2, "flow_shapes_level3": map[bool][]string{true: shapesThoroughL3, false: nil}[thorough],
 			"flow_heights_px": c.heights, "flow_cases": nFlow,
-			"per_box_menu": "break-before/after {avoid,page,left,right,recto,verso}, break-inside avoid, orphans {2,3}, widows {2,3}, padding 3px, border 3px, page n (thorough: m), counter-reset page 5",
+			"per_box_menu":           "break-before/after {avoid,page,left,right,recto,verso}, break-inside avoid, orphans {2,3}, widows {2,3}, padding 3px, border 3px, page n (thorough: m), counter-reset page 5",
+			"page_level_menu_level1": pageDecoCSS(pageChoices(1, thorough)), "page_level_menu_level2": pageDecoCSS(pageChoices(2, thorough)), "page_level_menu_level3": pageDecoCSS(pageChoices(3, thorough)),
 		},
 		Assumptions: []string{
 			"font Ahem 10px/1: every line is exactly 10px high; page width 20px = one two-glyph word per line",
@@ -192,6 +196,14 @@ func (c *check) Init(tier string, seed int64) engine.Space {
 			"size:auto / UA default margins are UA-defined: every document sets size and margins in a base @page rule",
 		},
 	}
+}
+
+func pageDecoCSS(ch []choice) []string {
+	var out []string
+	for _, c := range ch {
+		out = append(out, c.value+" = @page{"+pageDecos[c.value].css()+"} (sheet enlarged by the same amount)")
+	}
+	return out
 }
 
 func ruleTexts() []string {
@@ -205,7 +217,7 @@ func ruleTexts() []string {
 // presetExtras: the single deviations that can be added to a preset (other slots only).
 func presetExtras(s *shape, pre []choice, thorough bool) []choice {
 	var out []choice
-	for _, ch := range choicesFor(s, thorough) {
+	for _, ch := range menuFor(s, thorough, 1) {
 		ok := true
 		for _, p := range pre {
 			if sameSlot(p, ch) {
@@ -265,7 +277,7 @@ func (c *check) Describe(u int64) any {
 			"cases": "the preset, then the preset with each single further deviation in another slot"}
 	}
 	d := map[string]any{"family": "flow", "shape": c.shapes[un.shape], "content_height_px": c.heights[un.h], "level": un.level}
-	ch := choicesFor(parseShape(c.shapes[un.shape]), c.tier == "thorough")
+	ch := menuFor(parseShape(c.shapes[un.shape]), c.tier == "thorough", un.level)
 	switch un.level {
 	case 1:
 		d["cases"] = "no deviation, then each of the " + fmt.Sprint(len(ch)) + " single deviations"
@@ -313,7 +325,7 @@ func (c *check) Run(u int64, ctx *engine.Ctx) {
 			return
 		}
 		spec := c.shapes[un.shape]
-		ch := choicesFor(parseShape(spec), thorough)
+		ch := menuFor(parseShape(spec), thorough, un.level)
 		H := c.heights[un.h]
 		switch un.level {
 		case 1:
@@ -390,6 +402,17 @@ func flowFeatures(s *shape, f *flow, H int, dev []choice, primary *mresult) []st
 			set["named-page"] = true
 		case "creset":
 			set["counter-reset-page-on-element"] = true
+		case "deco":
+			pd := pageDecos[d.value]
+			if pd.hasBorder() {
+				set["page-border"] = true
+			}
+			if pd.hasPadding() {
+				set["page-padding"] = true
+			}
+			if pd.asymmetric() {
+				set["page-decoration-asymmetric"] = true
+			}
 		}
 	}
 	for _, n := range s.nodes() {
@@ -579,9 +602,16 @@ func pageInvariants(H float64, ops []opage) []mismatch {
 	return ms
 }
 
+// flowGeo is the declared page geometry of a flow document: content box pageW (30 on pages named m)
+// x h under a 10px top margin, with the page-level decoration around it.
+type flowGeo struct {
+	h    float64
+	deco pageDeco
+}
+
 // nameInvariant: every page that holds content has the name required by the FIRST content
 // placed on it; with widths, every page has the width its own name selects.
-func nameInvariant(f *flow, ops []opage, widths bool) []mismatch {
+func nameInvariant(f *flow, ops []opage, geo *flowGeo) []mismatch {
 	pageOf := map[string]string{}
 	for g := range f.lines {
 		pageOf[lineLabel(f.lines[g].p, f.lines[g].i)] = f.paras[f.lines[g].p].page
@@ -593,13 +623,23 @@ func nameInvariant(f *flow, ops []opage, widths bool) []mismatch {
 				ms = append(ms, mismatch{"page-name", fmt.Sprintf("page %d starts with %s whose page is %q but the page type has name %q", k, p.texts[0], want, p.name)})
 			}
 		}
-		if widths {
+		if geo != nil {
 			w := float64(pageW)
 			if p.name == "m" {
 				w = pageWm
 			}
+			d := geo.deco
 			if !near(p.width, w) || !near(p.mt, 10) || !near(p.ml, 0) || !near(p.mr, 0) || !near(p.mb, 0) {
 				ms = append(ms, mismatch{"page-geometry", fmt.Sprintf("page %d (%s): content width %g margins t=%g r=%g b=%g l=%g; its name selects width %g margins 10 0 0 0", k, p.typeString(), p.width, p.mt, p.mr, p.mb, p.ml, w)})
+			} else if !near(p.height, geo.h) {
+				// declared: sheet height - margins - borders - paddings
+				ms = append(ms, mismatch{"page-geometry", fmt.Sprintf("page %d (%s): content height %g; the sheet is %g high, margins 10+0, borders %g+%g, paddings %g+%g -> content height %g", k, p.typeString(), p.height, geo.h+10+d.vert(), d.bt, d.bb, d.pt, d.pb, geo.h)})
+			}
+			if !near(p.bt, d.bt) || !near(p.br, d.br) || !near(p.bb, d.bb) || !near(p.bl, d.bl) || !near(p.pt, d.pt) || !near(p.pr, d.pr) || !near(p.pb, d.pb) || !near(p.pl, d.pl) {
+				ms = append(ms, mismatch{"page-geometry", fmt.Sprintf("page %d (%s): borders t=%g r=%g b=%g l=%g paddings t=%g r=%g b=%g l=%g; declared borders t=%g r=%g b=%g l=%g paddings t=%g r=%g b=%g l=%g", k, p.typeString(), p.bt, p.br, p.bb, p.bl, p.pt, p.pr, p.pb, p.pl, d.bt, d.br, d.bb, d.bl, d.pt, d.pr, d.pb, d.pl)})
+			}
+			if sw, sh := w+d.horiz(), geo.h+10+d.vert(); !near(p.marginBoxW(), sw) || !near(p.marginBoxH(), sh) {
+				ms = append(ms, mismatch{"page-box-size", fmt.Sprintf("page %d (%s): the margin box of the page is %gx%g, the declared size is %gx%g (nothing is over-constrained: height and width are auto)", k, p.typeString(), p.marginBoxW(), p.marginBoxH(), sw, sh)})
 			}
 		}
 	}
@@ -624,7 +664,8 @@ func (c *check) runFlow(ctx *engine.Ctx, spec string, H int, dev []choice) {
 		dl = append(dl, d.String())
 	}
 	f := buildFlow(s)
-	html := flowPrelude(H, "@top-center", "") + s.body()
+	pdeco := pageDecos[s.pdeco] // zero value: none
+	html := flowPreludeDeco(H, "@top-center", "", pdeco) + s.body()
 	desc := fmt.Sprintf("flow shape=%s H=%d dev=[%s] html=%s", spec, H, strings.Join(dl, " "), html)
 	vs := f.variants()
 	primary := f.paginate(float64(H), vs[0])
@@ -662,7 +703,7 @@ func (c *check) runFlow(ctx *engine.Ctx, spec string, H int, dev []choice) {
 
 	var ms []mismatch
 	ms = append(ms, pageInvariants(float64(H), ops)...)
-	ms = append(ms, nameInvariant(f, ops, true)...)
+	ms = append(ms, nameInvariant(f, ops, &flowGeo{float64(H), pdeco})...)
 	fi := forcedInvariant(f, ops)
 	ms = append(ms, fi...)
 	if len(fi) == 0 {
@@ -738,6 +779,12 @@ func (c *check) runCascade(ctx *engine.Ctx, doc int, seq []int) {
 			if d.important {
 				set["important"] = true
 			}
+			if strings.HasPrefix(d.prop, "border-") {
+				set["page-border"] = true
+			}
+			if strings.HasPrefix(d.prop, "padding-") {
+				set["page-padding"] = true
+			}
 		}
 	}
 	html := "<style>" + css.String() + "html,body{margin:0;font-family:ahem;font-size:10px;line-height:1;orphans:1;widows:1}p,div{margin:0}</style>" + s.body()
@@ -765,7 +812,7 @@ func (c *check) runCascade(ctx *engine.Ctx, doc int, seq []int) {
 	// page sequence (types) against the placement reference
 	var ms []mismatch
 	ms = append(ms, pageInvariants(1e6, ops)...)
-	ms = append(ms, nameInvariant(f, ops, false)...)
+	ms = append(ms, nameInvariant(f, ops, nil)...)
 	fi := forcedInvariant(f, ops)
 	ms = append(ms, fi...)
 	if len(fi) == 0 {
@@ -776,7 +823,7 @@ func (c *check) runCascade(ctx *engine.Ctx, doc int, seq []int) {
 	changed := false
 	for _, p := range ops {
 		t := ptype{index: p.index, first: p.first, blank: p.blank, side: p.side, name: p.name}
-		fmt.Fprintf(&key, "%s:%gx%g %g %g %g %g|", p.typeString(), p.width, p.height, p.mt, p.mr, p.mb, p.ml)
+		fmt.Fprintf(&key, "%s:%gx%g %g %g %g %g b%g %g %g %g p%g %g %g %g|", p.typeString(), p.width, p.height, p.mt, p.mr, p.mb, p.ml, p.bt, p.br, p.bb, p.bl, p.pt, p.pr, p.pb, p.pl)
 		if cascadePage(rules, t, 1) != cascadePage(rules[:1], t, 1) {
 			changed = true
 		}
@@ -799,9 +846,16 @@ func geomMismatch(rules []prule, ops []opage, nthG int) []mismatch {
 	for k, p := range ops {
 		t := ptype{index: p.index, first: p.first, blank: p.blank, side: p.side, name: p.name}
 		g := cascadePage(rules, t, nthG)
-		ew, eh := g.w-g.ml-g.mr, g.h-g.mt-g.mb
-		if !near(p.width, ew) || !near(p.height, eh) || !near(p.mt, g.mt) || !near(p.mr, g.mr) || !near(p.mb, g.mb) || !near(p.ml, g.ml) {
-			gm = append(gm, mismatch{"page-geometry", fmt.Sprintf("page %d (%s): content %gx%g margins t=%g r=%g b=%g l=%g; the matching rules give size %gx%g -> content %gx%g margins t=%g r=%g b=%g l=%g", k, p.typeString(), p.width, p.height, p.mt, p.mr, p.mb, p.ml, g.w, g.h, ew, eh, g.mt, g.mr, g.mb, g.ml)})
+		d := g.deco
+		ew, eh := g.w-g.ml-g.mr-d.horiz(), g.h-g.mt-g.mb-d.vert()
+		if !near(p.width, ew) || !near(p.height, eh) || !near(p.mt, g.mt) || !near(p.mr, g.mr) || !near(p.mb, g.mb) || !near(p.ml, g.ml) ||
+			!near(p.bt, d.bt) || !near(p.br, d.br) || !near(p.bb, d.bb) || !near(p.bl, d.bl) || !near(p.pt, d.pt) || !near(p.pr, d.pr) || !near(p.pb, d.pb) || !near(p.pl, d.pl) {
+			gm = append(gm, mismatch{"page-geometry", fmt.Sprintf("page %d (%s): content %gx%g margins t=%g r=%g b=%g l=%g borders t=%g r=%g b=%g l=%g paddings t=%g r=%g b=%g l=%g; the matching rules give size %gx%g margins t=%g r=%g b=%g l=%g borders t=%g r=%g b=%g l=%g paddings t=%g r=%g b=%g l=%g -> content %gx%g",
+				k, p.typeString(), p.width, p.height, p.mt, p.mr, p.mb, p.ml, p.bt, p.br, p.bb, p.bl, p.pt, p.pr, p.pb, p.pl,
+				g.w, g.h, g.mt, g.mr, g.mb, g.ml, d.bt, d.br, d.bb, d.bl, d.pt, d.pr, d.pb, d.pl, ew, eh)})
+		}
+		if !near(p.marginBoxW(), g.w) || !near(p.marginBoxH(), g.h) {
+			gm = append(gm, mismatch{"page-box-size", fmt.Sprintf("page %d (%s): the margin box of the page is %gx%g, the size selected by the matching rules is %gx%g", k, p.typeString(), p.marginBoxW(), p.marginBoxH(), g.w, g.h)})
 		}
 	}
 	return gm
@@ -818,7 +872,10 @@ type pbCase struct {
 type axisChoice struct {
 	inner  string // "" auto
 	mA, mB string // "" unset(0) | auto | Npx | N%
-	pad    string
+	pad    string // padding on the A side (left/top)
+	padB   string // padding on the B side (right/bottom)
+	bordA  string // border width on the A side
+	bordB  string // border width on the B side
 	max    string
 	min    string
 }
@@ -840,15 +897,25 @@ func parseLen(v string, cb float64) (val float64, auto bool) {
 	return x, false
 }
 
+// axisChoices: the first 96 entries are the product without B-side padding and without borders
+// (simplest first); then the same product under every other combination of {padding B, border A,
+// border B}: each operand of "padding + border" of the axis is present alone, so that the two
+// sides differ, and together.
 func axisChoices(inner, min string) []axisChoice {
 	var out []axisChoice
-	for _, in := range []string{"", inner} {
-		for _, a := range []string{"5px", "auto", "10%"} {
-			for _, b := range []string{"7px", "auto"} {
-				for _, p := range []string{"", "3px"} {
-					for _, mx := range []string{"", "40px"} {
-						for _, mn := range []string{"", min} {
-							out = append(out, axisChoice{in, a, b, p, mx, mn})
+	for _, deco := range [][3]string{
+		{"", "", ""},
+		{"4px", "", ""}, {"", "2px", ""}, {"", "", "6px"},
+		{"4px", "2px", ""}, {"4px", "", "6px"}, {"", "2px", "6px"}, {"4px", "2px", "6px"},
+	} {
+		for _, in := range []string{"", inner} {
+			for _, a := range []string{"5px", "auto", "10%"} {
+				for _, b := range []string{"7px", "auto"} {
+					for _, p := range []string{"", "3px"} {
+						for _, mx := range []string{"", "40px"} {
+							for _, mn := range []string{"", min} {
+								out = append(out, axisChoice{in, a, b, p, deco[0], deco[1], deco[2], mx, mn})
+							}
 						}
 					}
 				}
@@ -881,12 +948,23 @@ func pageBoxCases() []pbCase {
 		put("margin-left", h.mA)
 		put("margin-right", h.mB)
 		put("padding-left", h.pad)
+		put("padding-right", h.padB)
+		putBorder := func(side, w string) {
+			if w != "" {
+				d = append(d, "border-"+side+":"+w+" solid")
+			}
+		}
+		putBorder("left", h.bordA)
+		putBorder("right", h.bordB)
 		put("max-width", h.max)
 		put("min-width", h.min)
 		put("height", v.inner)
 		put("margin-top", v.mA)
 		put("margin-bottom", v.mB)
 		put("padding-top", v.pad)
+		put("padding-bottom", v.padB)
+		putBorder("top", v.bordA)
+		putBorder("bottom", v.bordB)
 		put("max-height", v.max)
 		put("min-height", v.min)
 		ax := func(c axisChoice, cb float64, name string) axisIn {
@@ -906,6 +984,18 @@ func pageBoxCases() []pbCase {
 				set[name+"-percent-margin"] = true
 			}
 			in.padA, _ = parseLen(c.pad, cb)
+			in.padB, _ = parseLen(c.padB, cb)
+			in.bordA, _ = parseLen(c.bordA, cb)
+			in.bordB, _ = parseLen(c.bordB, cb)
+			if c.pad != "" || c.padB != "" {
+				set[name+"-padding"] = true
+			}
+			if c.bordA != "" || c.bordB != "" {
+				set[name+"-border"] = true
+			}
+			if in.padA != in.padB || in.bordA != in.bordB {
+				set[name+"-decoration-asymmetric"] = true
+			}
 			if c.max != "" {
 				in.maxInner, _ = parseLen(c.max, cb)
 				set[name+"-max"] = true
@@ -960,9 +1050,21 @@ func runPageBox(ctx *engine.Ctx, pc pbCase) {
 		ctx.Fail(engine.Failure{Clause: "break-placement", Features: pc.feats, Case: desc, Detail: fmt.Sprintf("%d pages for a one-line document", len(ops))})
 		return
 	}
-	if !near(p.width, w) || !near(p.ml, ml) || !near(p.mr, mr) || !near(p.height, h) || !near(p.mt, mt) || !near(p.mb, mb) || !near(p.pl, pc.hx.padA) || !near(p.pt, pc.vx.padA) {
+	hx, vx := pc.hx, pc.vx
+	if !near(p.width, w) || !near(p.ml, ml) || !near(p.mr, mr) || !near(p.height, h) || !near(p.mt, mt) || !near(p.mb, mb) ||
+		!near(p.pl, hx.padA) || !near(p.pt, vx.padA) || !near(p.pr, hx.padB) || !near(p.pb, vx.padB) ||
+		!near(p.bl, hx.bordA) || !near(p.bt, vx.bordA) || !near(p.br, hx.bordB) || !near(p.bb, vx.bordB) {
 		ctx.Fail(engine.Failure{Clause: "page-box-dimensions", Features: pc.feats, Case: desc,
-			Detail: fmt.Sprintf("got content %gx%g margins t=%g r=%g b=%g l=%g padding l=%g t=%g; want content %gx%g margins t=%g r=%g b=%g l=%g padding l=%g t=%g", p.width, p.height, p.mt, p.mr, p.mb, p.ml, p.pl, p.pt, w, h, mt, mr, mb, ml, pc.hx.padA, pc.vx.padA)})
+			Detail: fmt.Sprintf("got content %gx%g margins t=%g r=%g b=%g l=%g padding t=%g r=%g b=%g l=%g border t=%g r=%g b=%g l=%g; want content %gx%g margins t=%g r=%g b=%g l=%g padding t=%g r=%g b=%g l=%g border t=%g r=%g b=%g l=%g",
+				p.width, p.height, p.mt, p.mr, p.mb, p.ml, p.pt, p.pr, p.pb, p.pl, p.bt, p.br, p.bb, p.bl,
+				w, h, mt, mr, mb, ml, vx.padA, hx.padB, vx.padB, hx.padA, vx.bordA, hx.bordB, vx.bordB, hx.bordA)})
+	}
+	// the margin box of the page coincides with the sheet unless the axis is over-constrained (then
+	// the containing block is resized to the margin edges: css-page-3 "page box model"); both are
+	// the sum of the reference's used values
+	if ew, eh := w+ml+mr+hx.deco(), h+mt+mb+vx.deco(); !near(p.marginBoxW(), ew) || !near(p.marginBoxH(), eh) {
+		ctx.Fail(engine.Failure{Clause: "page-box-size", Features: pc.feats, Case: desc,
+			Detail: fmt.Sprintf("the margin box of the page is %gx%g, want %gx%g (declared size %gx%g)", p.marginBoxW(), p.marginBoxH(), ew, eh, hx.cb, vx.cb)})
 	}
 }
 
